@@ -29,10 +29,14 @@ class C09(Prop):
         big = tier == "thorough"
         return gen_ir.Cfg(unnamed=False, max_defs=9 if big else 7, max_children=5 if big else 4,
                           max_width=4 if big else 3, share=True, late=True, top="always",
-                          top_modes=["standalone", "definition"], data_values="json")
+                          top_modes=["standalone", "definition"], data_values="json",
+                          alphabet=["a", "b", "c", "d", "e", "f", "g", "h", "Stage0", "U1", "k", "m", "n",
+                                    "p", "q", "R_x"])
 
     def strategy(self, tier):
-        return gen_ir.recipes(self.cfg(tier))
+        from hypothesis import strategies as st
+        return st.tuples(gen_ir.recipes(self.cfg(tier)), st.sampled_from(["DEFAULT", "DEFAULT", "EDIF"])).map(
+            lambda t: dict(t[0], policy=t[1]))
 
     def fixed_cases(self, tier):
         return gen_ir.example_cases(tier)
@@ -59,8 +63,9 @@ class C09(Prop):
                 res.label("example-not-usable")
                 return res
         else:
-            B = gen_ir.build(case)
+            B = gen_ir.build(case, policy=case.get("policy", "DEFAULT"))
             nl = B.netlist
+            res.label("policy-" + case.get("policy", "DEFAULT"))
             pre = model.wf(nl, strict=True)
             if pre:
                 raise RuntimeError("generator produced ill-formed netlist: %r" % pre[:3])
@@ -96,6 +101,8 @@ class C09(Prop):
             res.label("net-crosses>=2-levels")
         if depth >= 3:
             res.label("depth>=3")
+        T0 = nl.top_instance.reference
+        self._names_before = {x.name for x in list(T0.children) + list(T0.cables) if x.name}
         try:
             F.flatten(nl)
         except Exception as e:  # noqa
@@ -174,6 +181,25 @@ class C09(Prop):
                 [sorted(x) for x in list(a - b)[:2]], [sorted(x) for x in list(b - a)[:2]]))
         for code, detail in model.wf(nl, strict=False):
             res.violate("C09:" + code, detail)
+        # well-formed also means: the flat top answers exact-name queries like a scan of its members
+        # (dissolved instances and their inner cables are gone from the name index)
+        import spydrnet as sdn
+        names = set(self._names_before) | {x.name for x in list(T.children) + list(T.cables) if x.name}
+        for nm in sorted(names):
+            if "*" in nm or "?" in nm:
+                continue
+            for tag, lst, fn in (("instances", T.children, sdn.get_instances), ("cables", T.cables,
+                                                                               sdn.get_cables)):
+                scan = sorted(id(x) for x in lst if x.name == nm)
+                try:
+                    got = sorted(id(x) for x in fn(T, nm))
+                except Exception as e:  # noqa
+                    res.violate("C09:lookup-raises-after-flatten:%s" % type(e).__name__, repr(e))
+                    return res
+                if got != scan:
+                    res.violate("C09:lookup-differs-from-scan-after-flatten:%s" % tag,
+                                "%r: lookup %d, scan %d" % (nm, len(got), len(scan)))
+                    return res
         return res
 
 
